@@ -65,16 +65,19 @@ type deliveryRule struct {
 }
 
 func (r *deliveryRule) Inline(fn *ssa.Function) bool {
-	if fn.Parent() != nil { // closures of the publish / dispatch functions
-		return true
-	}
-	return fn == r.R.DispatchFn
+	// everything of package ebu that is statically called is followed, except the
+	// persist and shard functions, which are atomic events here
+	return PkgOf(fn) == PkgBus && fn != r.R.PersistFn && fn != r.R.ShardFn
 }
 
 func (r *deliveryRule) PredOK(key string) bool {
-	// track only predicates on registration fields, the select/CAS outcomes and recover()
-	return strings.Contains(key, ")."+r.R.RegOnce) || strings.Contains(key, ")."+r.R.RegAsync) || strings.Contains(key, ")."+r.R.RegFilter) ||
-		strings.Contains(key, ")."+r.R.RegSeq)
+	// track only predicates on registration fields
+	for _, f := range []string{r.R.RegOnce, r.R.RegAsync, r.R.RegFilter, r.R.RegSeq} {
+		if mentionsField(key, f) {
+			return true
+		}
+	}
+	return false
 }
 
 func (r *deliveryRule) inLoop(fc *FrameCtx, blk *ssa.BasicBlock) bool {
@@ -493,7 +496,7 @@ func (r *deliveryRule) OnExit(e *Engine, st *State, kind ExitKind) {
 
 // runDelivery runs the delivery automaton and files obligations under the given rule ids.
 // ruleOf maps a construct to the rule id it belongs to.
-func runDelivery(c *Ctx, p *Prog, R *BusRoles, ruleOf func(construct string) string, want map[string]bool) {
+func runDelivery(c *Ctx, p *Prog, R *BusRoles, ruleOf func(construct string) string, want map[string]string) {
 	e := NewEngine(p)
 	rn := R.RegName()
 	for _, f := range []string{R.RegOnce, R.RegAsync, R.RegSeq, R.RegFilter, R.RegHandler, R.RegHandlerType} {
@@ -511,19 +514,7 @@ func runDelivery(c *Ctx, p *Prog, R *BusRoles, ruleOf func(construct string) str
 		return
 	}
 	r.loops = loopsOf(R.PublishFn)
-	r.header = loopContaining(R.PublishFn, func(in ssa.Instruction) bool {
-		switch in := in.(type) {
-		case *ssa.Go:
-			return true
-		case *ssa.Call:
-			if sc := in.Common().StaticCallee(); sc != nil {
-				if sc == R.DispatchFn || sc.Origin() == R.DispatchFn {
-					return true
-				}
-			}
-		}
-		return false
-	})
+	r.header = dispatchLoopHeader(R)
 	if r.header == nil {
 		c.Unresolved("DELIVERY", "UNRESOLVED-ANCHOR/dispatch-loop", "no loop in PublishContext contains a dispatch (call of the dispatch function or go statement)")
 		return
@@ -543,16 +534,17 @@ func runDelivery(c *Ctx, p *Prog, R *BusRoles, ruleOf func(construct string) str
 	hit := map[string]bool{}
 	for _, f := range e.Findings {
 		rule := ruleOf(f.Construct)
-		if !want[rule] {
+		as, ok := want[rule]
+		if !ok {
 			continue
 		}
 		hit[rule] = true
-		c.Violate(rule, f.Construct, p.Pos(f.Pos), f.Msg, f.Trace)
+		c.Violate(as, f.Construct, p.Pos(f.Pos), f.Msg, f.Trace)
 	}
 	// discharged obligations: one per rule-relevant site class
 	dis := func(rule, construct, detail string) {
-		if want[rule] {
-			c.Discharge(rule, construct, "", detail)
+		if as, ok := want[rule]; ok {
+			c.Discharge(as, construct, "", detail)
 		}
 	}
 	for pos := range r.invSites {
@@ -574,8 +566,8 @@ func runDelivery(c *Ctx, p *Prog, R *BusRoles, ruleOf func(construct string) str
 		dis("C08.R1", "PublishContext/dispatch@"+siteKey(p, pos), "dispatch preceded by a live poll of the publish context in the same delivery")
 		dis("C04.R4", "PublishContext/dispatch@"+siteKey(p, pos), "claimed registrations are queued for retirement before the iteration ends")
 	}
-	if want["C04.R4"] {
-		c.Check(r.sawRegistryWriteAfterLoop, "C04.R4", "PublishContext/retirement-region", "", "registry write-back after the dispatch loop present", "no registry write-back after the dispatch loop: claimed once handlers are never removed")
+	if as, ok := want["C04.R4"]; ok {
+		c.Check(r.sawRegistryWriteAfterLoop, as, "PublishContext/retirement-region", "", "registry write-back after the dispatch loop present", "no registry write-back after the dispatch loop: claimed once handlers are never removed")
 	}
 }
 
